@@ -235,6 +235,8 @@ def gen_history(rng, ref):
                     i, j = int(rng.integers(K)), int(rng.integers(K))
                     if i != j:
                         vals[i] = vals[j] + float(gens.pick(rng, [1e-9, -1e-9, 1e-7, 1e-12])) * max(abs(vals[j]), 1.0)
+            if (not wrong) and (not asint) and rng.random() < .3 and K > 1:
+                vals[int(rng.integers(K))] = np.nan          # a per-cycle value the user could not compute
             if asint:
                 vals = np.round(vals * 3)
                 if rng.random() < .5 and K > 1:
